@@ -41,8 +41,10 @@ func (m *Memory) Get(key *ds.Key) (ds.Value, error) {
 func (m *Memory) Set(key *ds.Key, value ds.Value) error {
 	m.Lock()
 	defer m.Unlock()
+	// the storage keeps its own copy of the key: the caller goes on mutating its key object
+	// (deadline changes), which must not silently change what is recorded here
 	m.data.Set(string(key.Encode()), KeyValue{
-		key:   key,
+		key:   ds.NewKey(key.Name, key.Expiration),
 		value: value,
 	})
 	return nil
@@ -71,7 +73,7 @@ func (m *Memory) ScanKeys(f func(*ds.Key) bool) {
 	m.RLock()
 	defer m.RUnlock()
 	m.data.Scan(func(_ string, kv KeyValue) bool {
-		return f(kv.key)
+		return f(ds.NewKey(kv.key.Name, kv.key.Expiration))
 	})
 }
 
